@@ -172,3 +172,11 @@ package app
 //@   props C08
 //@   requires ff != nil && ffInv(ff)
 //@   modifies *
+
+// C14: the stream handed out to handlers - and to the release step of the server loop - is the request's own
+// body stream object, not a wrapper (the release step only drains a stream it recognises).
+//@ func RequestContext.RequestBodyStream(ctx) r
+//@   props C14
+//@   requires ctx != nil
+//@   top-ensures ctx.Request.bodyStream != nil ==> r == ctx.Request.bodyStream
+
